@@ -433,6 +433,10 @@ func (tps *TPS) waitForDeCommitmentDistribution(ctx context.Context) error {
 }
 
 func (tps *TPS) combineShares() PK {
+	// OnMsg may run concurrently (an early or repeated message of a peer): the tables are shared with it
+	tps.lock.Lock()
+	defer tps.lock.Unlock()
+
 	for _, party := range tps.parties {
 		if party == tps.Party {
 			continue
